@@ -1,7 +1,7 @@
 (* C10 - speaking restrictions (+n, +m, bans) hold and NOTICE is never answered.
    Statements only; proofs in IRCP.MsgP and IRCP.BanP. *)
-From IRC Require Import Str Wild Glob Parse Reply State Handlers.
-From IRCP Require Import MsgP BanP.
+From IRC Require Import Str Wild Glob Parse Reply State Handlers Step.
+From IRCP Require Import MsgP BanP InvDefs AwayGlobal.
 From stdpp Require Import gmap.
 
 Section C10.
@@ -69,9 +69,22 @@ Proof. exact (away_effect cfg i). Qed.
 
 End C10.
 
+(* THAT USER'S AWAY TEXT is the user's own: over every event of every connection, the away state of a record after a
+   step is that of the same connection's record before it (under the same nick or, after NICK, the old one) unless the
+   event is that connection's own AWAY line; a newly registered user is not away.  Nobody else's command - and no
+   other command of its own: NICK, MODE, OPER, JOIN, ... - sets, changes or clears it. *)
+Theorem C10_away_changes_only_by_own_away : forall cfg verify w i e w' o cl, Inv w -> step cfg verify w i e = Ok (w', o, cl) ->
+  forall n u', users (sh w') !! n = Some u' ->
+  (exists n0 u, users (sh w) !! n0 = Some u /\ u_conn u = u_conn u' /\ u_away u' = u_away u) \/
+  (u_conn u' = i /\ exists c l, conns w !! i = Some c /\ e = EvLine l /\
+     ((c_auth c = true /\ exists msg t, tokenize l = inl msg /\ command_of_message msg = inl (AWAY t)) \/
+      (c_auth c = false /\ u_away u' = None))).
+Proof. exact away_changes_only_by_own_away. Qed.
+
 Print Assumptions C10_can_send_iff.
 Print Assumptions C10_delivered_if_can_send.
 Print Assumptions C10_refused_if_cannot_send.
 Print Assumptions C10_notice_silent.
 Print Assumptions C10_away.
 Print Assumptions C10_away_is_last_sent.
+Print Assumptions C10_away_changes_only_by_own_away.
